@@ -15,7 +15,7 @@ TRANSPARENT = re.compile(
     r'slice::<impl \[T\]>::(iter|to_vec)$|Iterator::(chain|cloned|collect)$|IntoIterator>::into_iter$|IntoIterator::into_iter$|'
     r'boxed::Box::<T>::new(_uninit)?$|boxed::box_assume_init_into_vec_unsafe$|slice::<impl \[T\]>::into_vec$|'
     r'as std::convert::From<&\[T\]>>::from$|as std::convert::From<&.*>>::from$|FromIterator<T>>::from_iter$|'
-    r'Vec::<T(, A)?>::(extend_from_slice|append|push)$|as std::iter::Extend<.*>>::extend$|^std::slice::from_ref$)')
+    r'Vec::<T(, A)?>::(extend_from_slice|append|push)$|as std::iter::Extend<.*>>::extend$|^std::slice::from_ref$|slice::<impl \[V\]>::concat$|slice::<impl \[T\]>::concat$)')
 
 
 def params_in(v, p=None):
@@ -279,7 +279,7 @@ def check_box_test(ctx, rep, rule='B-test'):
         stage = [i for i, e in enumerate(p.events) if e['k'] == 'call' and e.get('depth', 0) == 0 and
                  (e['callee'].endswith('trivial_result') or e['callee'].endswith('::subdivide'))]
         upto = stage[0] if stage else len(p.events)
-        early = [(e['val'], e['cond']) for e in p.events[:upto] if e['k'] == 'branch' and e.get('depth', 0) == 0]
+        early = [(e['val'], e['cond']) for e in p.events[:upto] if e['k'] == 'branch' and e.get('depth', 0) <= 2]
         for (v, c) in early:
             cc = canon_cmp(v, p, roles)
             if cc is None:
@@ -507,6 +507,10 @@ def _hole_ring_ok(unit, v, p, idx_own):
     r = _unwrap_transparent(v[4][0])
     if _last_field(r) != 'points':
         return False
+    # indexing a slice is a place projection, indexing a Vec a call of Index::index
+    rr = strip_upd(r)
+    if rr[0] == 'ref' and len(rr[1][1]) >= 2 and rr[1][1][-2][0] == 'i' and rr[1][0][0] == 'ext':
+        return unit.contours_value(rr[1][0][1], p) and idx_own(rr[1][1][-2][1])
     ix = _base_of(r)
     if not (ix[0] in ('call', 'pcall') and re.search(r'Index<.*>>::index$', ix[1]) and len(ix[2]) == 2):
         return False
@@ -565,7 +569,7 @@ def check_assemble(ctx, rep, rule='T-assemble'):
     hole_locals = set()
     hole_closures = set()
     for p in unit.paths:
-        for e in p.calls():
+        for e in p.calls(depth0=False):
             if not e['callee'].endswith('Polygon::<T>::new'):
                 continue
             n_poly += 1
